@@ -528,6 +528,27 @@ where
     }
 }
 
+/// Read-only access to the private representation, for verification harnesses only.
+#[cfg(brood_verif)]
+impl<R> Archetypes<R>
+where
+    R: Registry,
+{
+    pub(crate) fn verif_raw(
+        &self,
+    ) -> (
+        &RawTable<Archetype<R>>,
+        &HashMap<TypeId, archetype::IdentifierRef<R>, FnvBuildHasher>,
+        &HashMap<&'static [u8], archetype::IdentifierRef<R>, FnvBuildHasher>,
+    ) {
+        (
+            &self.raw_archetypes,
+            &self.type_id_lookup,
+            &self.foreign_identifier_lookup,
+        )
+    }
+}
+
 #[cfg(test)]
 mod tests {
     use crate::{
